@@ -1,6 +1,10 @@
 import OW.Kernels.Climate
 import OW.Proofs.RealNum
 import OW.Proofs.Climate
+import OW.Proofs.ClimateFreezing
+import OW.Proofs.ClimateBisect
+import OW.Proofs.ClimateCont
+import OW.Proofs.ClimateDewCounter
 import Mathlib.Tactic.Linarith
 import Mathlib.Tactic.Positivity
 import Mathlib.Tactic.NormNum
@@ -14,13 +18,22 @@ Theorems over the kernel model `OW/Kernels/Climate.lean` at `α := ℝ` (exact r
 * `deltaT_def`            — the reported depression is dry bulb − wet bulb
 * `vp_strictMono_ice`     — strictly increasing on (−273.16, 0]   (⊇ [−40, 0])
 * `vp_strictMono_water`   — strictly increasing on (0, 100]       (⊇ (0, 55])
+* `vp_strictMono_across`, `vp_strictMono` — strictly increasing on the whole range (−273.16, 100], INCLUDING across 0 °C
+  (verified numerics `OW.Proofs.ClimateFreezing`: the water-branch limit at 0⁺ exceeds the ice value at 0 by 4.7·10⁻⁵ in log₁₀);
+  `vp_jump_at_zero` — the two branches do NOT meet: `vaporPressure` has an upward jump at 0 °C
+* `bisect_bracket_invariant` — sign invariant at the bracket ends, nesting, width `dx/2^k`, exit reason (no continuity needed)
+* `bisect_converges`, `wetbulb_converges`, `wetbulb_converges_water`, `wetbulb_converges_ice` — with continuity (IVT) the result is
+  within `acc = 1e-4` (accuracy exit) or `|dx|/2^40` (iterations exhausted) of a point where the searched function equals the level
+* `satEnthalpy_strictMono_water` — above freezing the searched function is strictly increasing (the crossing is unique)
 * `dewpoint_mono_humidity`— dew point strictly increasing in relative humidity
-NOT proved (listed as such in checks/C20.py): monotonicity across the freezing point (needs verified numerics of
-transcendental constants, margin ≈ 5·10⁻⁵ in log₁₀), convergence of the bisection to the enthalpy match, finiteness
-in IEEE arithmetic (ℝ has no non-finite values; finiteness is checked by the oracle on the real code).
+* `dewPoint_le_dryBulb_iff`, `dewPoint_le_dryBulb_of_magnus`, `dewPoint_le_dryBulb_at_zero` — dew point ≤ dry bulb holds EXACTLY when
+  the Goff-Gratch actual vapour pressure is ≤ the Magnus saturation pressure at the dry bulb; it is NOT a theorem for all
+  0 < RH ≤ 100: `dewPoint_exceeds_dryBulb_example` proves 40 < dewPoint 40 100 (Goff-Gratch > Magnus at 40 °C, verified numerics)
+NOT proved (listed as such in checks/C20.py): finiteness in IEEE arithmetic (ℝ has no non-finite values; finiteness is checked by the
+oracle on the real code); continuity of the searched function ACROSS 0 °C is false (jump), so `wetbulb_converges_*` are per side.
 -/
 namespace OW.Props.C20
-open OW OW.Kernels.Climate OW.Proofs.Climate
+open OW OW.Kernels.Climate OW.Proofs.Climate Set
 
 /-! ### the bisection bracket -/
 
@@ -119,6 +132,150 @@ theorem vp_strictMono_water (t1 t2 : ℝ) (h0 : 0 < t1) (h12 : t1 < t2) (h2 : t2
     Real.rpow_lt_rpow_of_exponent_lt (by norm_num) this
   linarith
 
+
+/-- the ice branch at 0 °C in closed form: exactly 101.325 × 0.0060273 kPa -/
+theorem vp_zero : vaporPressure (0:ℝ) = 101.325 * (10:ℝ) ^ expIce 1 := by
+  rw [vp_ice 0 (lt_irrefl _)]
+  norm_num
+
+/-- **vp_jump_at_zero.** The two Goff-Gratch branches do not meet at 0 °C: with `L = 101.325·10^expWater(373.16/273.16)`, the
+limit of the water branch as T → 0⁺ (0.610782… kPa), the ice value at 0 (0.610716… kPa) is strictly below `L` and every value
+on (0, 100] is strictly above `L`. So `vaporPressure` is increasing but has an upward JUMP (relative size 1.08·10⁻⁴) at 0 °C. -/
+theorem vp_jump_at_zero :
+    vaporPressure (0:ℝ) < 101.325 * (10:ℝ) ^ expWater (373.16 / 273.16) ∧
+    ∀ t : ℝ, 0 < t → t ≤ 100 → 101.325 * (10:ℝ) ^ expWater (373.16 / 273.16) < vaporPressure t := by
+  constructor
+  · rw [vp_zero]
+    have := Real.rpow_lt_rpow_of_exponent_lt (x := (10:ℝ)) (by norm_num) expIce_one_lt_expWater_z0
+    linarith
+  · intro t h0 h2
+    rw [vp_water t h0]
+    have ha : 0 < t + 273.16 := by linarith
+    have hz2 : 1 ≤ 373.16 / (t + 273.16) := by rw [le_div_iff₀ ha]; linarith
+    have hz : 373.16 / (t + 273.16) < 373.16 / 273.16 :=
+      div_lt_div_of_pos_left (by norm_num) (by norm_num) (by linarith)
+    have := Real.rpow_lt_rpow_of_exponent_lt (x := (10:ℝ)) (by norm_num) (expWater_strictAnti hz2 hz)
+    linarith
+
+/-- **vp_strictMono_across.** Across the freezing point: a temperature at or below 0 °C (above −273.16) has a strictly smaller
+saturation vapour pressure than any temperature in (0, 100]. -/
+theorem vp_strictMono_across (t1 t2 : ℝ) (h0 : -273.16 < t1) (h1 : t1 ≤ 0) (h2 : 0 < t2) (h3 : t2 ≤ 100) :
+    vaporPressure t1 < vaporPressure t2 := by
+  have hle : vaporPressure t1 ≤ vaporPressure 0 := by
+    rcases eq_or_lt_of_le h1 with h | h
+    · rw [h]
+    · exact (vp_strictMono_ice t1 0 h0 h (le_refl _)).le
+  have hj := vp_jump_at_zero
+  exact lt_of_le_of_lt hle (lt_trans hj.1 (hj.2 t2 h2 h3))
+
+/-- **vp_strictMono.** The modelled `calcVaporPressure` is strictly increasing on the whole interval (−273.16, 100] °C —
+within the ice branch, within the water branch, and across 0 °C. -/
+theorem vp_strictMono (t1 t2 : ℝ) (h0 : -273.16 < t1) (h12 : t1 < t2) (h2 : t2 ≤ 100) :
+    vaporPressure t1 < vaporPressure t2 := by
+  rcases le_or_gt t2 0 with h | h
+  · exact vp_strictMono_ice t1 t2 h0 h12 h
+  · rcases le_or_gt t1 0 with h' | h'
+    · exact vp_strictMono_across t1 t2 h0 h' h h2
+    · exact vp_strictMono_water t1 t2 h' h12 h2
+
+/-! ### convergence of the wet-bulb bisection -/
+
+/-- **bisect_bracket_invariant** (no continuity, any sign of `dx`, any `f`): if the level is bracketed on entry,
+`f rtb < h ≤ f (rtb + dx)`, then after the loop (at most `n` iterations, `k` of them executed) the returned point `r` and the
+final signed width `w = dx / 2^k` satisfy `f r < h ≤ f (r + w)`; the final bracket `[[r, r + w]]` lies inside the initial one;
+and the loop ended by the accuracy test (`|w| < 1e-4`) or after all `n` iterations (`k = n`). -/
+theorem bisect_bracket_invariant (f : ℝ → ℝ) (h : ℝ) (n : Nat) (rtb dx : ℝ)
+    (hlo : f rtb < h) (hhi : h ≤ f (rtb + dx)) :
+    ∃ k : Nat, k ≤ n ∧
+      f (bisect f h n rtb dx) < h ∧ h ≤ f (bisect f h n rtb dx + dx / 2 ^ k) ∧
+      (|dx / 2 ^ k| < 0.0001 ∨ k = n) ∧
+      uIcc (bisect f h n rtb dx) (bisect f h n rtb dx + dx / 2 ^ k) ⊆ uIcc rtb (rtb + dx) :=
+  bisect_invariant f h n rtb dx hlo hhi
+
+/-- **bisect_converges.** If the searched function is continuous on the initial bracket and the level is bracketed
+(`f rtb < h ≤ f (rtb + dx)`), there is a point `c` of the bracket with `f c = h` such that the returned value is within the
+required accuracy `1e-4` of `c` (accuracy exit) or within `|dx| / 2^n` of `c` (all `n` halvings done). -/
+theorem bisect_converges (f : ℝ → ℝ) (h : ℝ) (n : Nat) (rtb dx : ℝ)
+    (hc : ContinuousOn f (uIcc rtb (rtb + dx))) (hlo : f rtb < h) (hhi : h ≤ f (rtb + dx)) :
+    ∃ c ∈ uIcc rtb (rtb + dx), f c = h ∧
+      (|bisect f h n rtb dx - c| < 0.0001 ∨ |bisect f h n rtb dx - c| ≤ |dx| / 2 ^ n) := by
+  obtain ⟨k, _, h1, h2, h3, h4⟩ := bisect_invariant f h n rtb dx hlo hhi
+  obtain ⟨c, hcm, hfc, hd⟩ := crossing_in_bracket f h _ _ (hc.mono h4) h1 h2
+  refine ⟨c, h4 hcm, hfc, ?_⟩
+  rcases h3 with h3 | h3
+  · exact Or.inl (lt_of_le_of_lt hd h3)
+  · right
+    rw [h3] at hd
+    have : |dx / 2 ^ n| = |dx| / 2 ^ n := by
+      rw [abs_div, abs_pow, abs_two]
+    rw [← this]; exact hd
+
+/-- **wetbulb_converges.** `calcWetBulb` (40 halvings, accuracy 1e-4): if the saturated-air enthalpy is continuous between dew
+point and dry bulb and the enthalpy `hE` is bracketed there, the returned wet bulb is within 1e-4 °C (or within
+`|dry − dew| / 2^40`) of a temperature `c` between dew point and dry bulb whose saturated-air enthalpy equals `hE`. -/
+theorem wetbulb_converges (tDryBulb tDewPoint hE pa : ℝ)
+    (hc : ContinuousOn (satEnthalpy pa) (uIcc tDewPoint tDryBulb))
+    (hlo : satEnthalpy pa tDewPoint < hE) (hhi : hE ≤ satEnthalpy pa tDryBulb) :
+    ∃ c ∈ uIcc tDewPoint tDryBulb, satEnthalpy pa c = hE ∧
+      (|wetBulb tDryBulb tDewPoint hE pa - c| < 0.0001 ∨
+       |wetBulb tDryBulb tDewPoint hE pa - c| ≤ |tDryBulb - tDewPoint| / 2 ^ 40) := by
+  have e : tDewPoint + (tDryBulb - tDewPoint) = tDryBulb := by ring
+  have := bisect_converges (satEnthalpy pa) hE 40 tDewPoint (tDryBulb - tDewPoint)
+    (by rw [e]; exact hc) hlo (by rw [e]; exact hhi)
+  rw [e] at this
+  exact this
+
+/-- **wetbulb_converges_water**: the continuity hypothesis discharged above freezing — dew point and dry bulb both > 0 °C and the
+saturation vapour pressure different from the atmospheric pressure on the bracket (the divisor of `calcHumidityRatio`). -/
+theorem wetbulb_converges_water (tDryBulb tDewPoint hE pa : ℝ) (hd : 0 < tDewPoint) (ht : 0 < tDryBulb)
+    (hne : ∀ x ∈ uIcc tDewPoint tDryBulb, pa - vaporPressure x ≠ 0)
+    (hlo : satEnthalpy pa tDewPoint < hE) (hhi : hE ≤ satEnthalpy pa tDryBulb) :
+    ∃ c ∈ uIcc tDewPoint tDryBulb, satEnthalpy pa c = hE ∧
+      (|wetBulb tDryBulb tDewPoint hE pa - c| < 0.0001 ∨
+       |wetBulb tDryBulb tDewPoint hE pa - c| ≤ |tDryBulb - tDewPoint| / 2 ^ 40) := by
+  apply wetbulb_converges _ _ _ _ _ hlo hhi
+  apply satEnthalpy_continuousOn pa _ _ hne
+  apply vaporPressure_continuousOn_water.mono
+  intro x hx
+  rw [mem_uIcc] at hx
+  show (0:ℝ) < x
+  rcases hx with hx | hx <;> linarith [hx.1]
+
+/-- **wetbulb_converges_ice**: the same at or below freezing — dew point and dry bulb both in (−273.16, 0]. -/
+theorem wetbulb_converges_ice (tDryBulb tDewPoint hE pa : ℝ)
+    (hd0 : -273.16 < tDewPoint) (hd : tDewPoint ≤ 0) (ht0 : -273.16 < tDryBulb) (ht : tDryBulb ≤ 0)
+    (hne : ∀ x ∈ uIcc tDewPoint tDryBulb, pa - vaporPressure x ≠ 0)
+    (hlo : satEnthalpy pa tDewPoint < hE) (hhi : hE ≤ satEnthalpy pa tDryBulb) :
+    ∃ c ∈ uIcc tDewPoint tDryBulb, satEnthalpy pa c = hE ∧
+      (|wetBulb tDryBulb tDewPoint hE pa - c| < 0.0001 ∨
+       |wetBulb tDryBulb tDewPoint hE pa - c| ≤ |tDryBulb - tDewPoint| / 2 ^ 40) := by
+  apply wetbulb_converges _ _ _ _ _ hlo hhi
+  apply satEnthalpy_continuousOn pa _ _ hne
+  apply vaporPressure_continuousOn_ice.mono
+  intro x hx
+  rw [mem_uIcc] at hx
+  show -273.16 < x ∧ x ≤ 0
+  rcases hx with hx | hx <;> constructor <;> linarith [hx.1, hx.2]
+
+/-- **satEnthalpy_strictMono_water.** Above freezing and below the boiling point of the given pressure (`vp x2 < pa`) the function
+searched by the bisection is strictly increasing, so the crossing of `wetbulb_converges_water` is unique. -/
+theorem satEnthalpy_strictMono_water (pa x1 x2 : ℝ) (h0 : 0 < x1) (h12 : x1 < x2) (h2 : x2 ≤ 100)
+    (hpa : vaporPressure x2 < pa) : satEnthalpy pa x1 < satEnthalpy pa x2 := by
+  rw [satEnthalpy_eq, satEnthalpy_eq]
+  have hv := vp_strictMono_water x1 x2 h0 h12 h2
+  have hv1 := vp_pos x1
+  generalize vaporPressure x1 = v1 at hv hv1 ⊢
+  generalize vaporPressure x2 = v2 at hv hpa ⊢
+  have hd1 : 0 < pa - v1 := by linarith
+  have hd2 : 0 < pa - v2 := by linarith
+  have hw : 0.62198 * v1 / (pa - v1) < 0.62198 * v2 / (pa - v2) := by
+    rw [div_lt_div_iff₀ hd1 hd2]
+    nlinarith
+  have hw1 : 0 < 0.62198 * v1 / (pa - v1) := by positivity
+  generalize 0.62198 * v1 / (pa - v1) = w1 at hw hw1 ⊢
+  generalize 0.62198 * v2 / (pa - v2) = w2 at hw ⊢
+  nlinarith
+
 /-! ### dew point -/
 
 /-- `calcDewPoint` for a positive humidity, in closed form -/
@@ -154,6 +311,90 @@ theorem dewpoint_mono_humidity (t rh1 rh2 : ℝ) (h1 : 0 < rh1) (h12 : rh1 < rh2
   rw [div_lt_div_iff₀ (by linarith) (by linarith)]
   nlinarith
 
+
+/-- **dewPoint_le_dryBulb_iff.** What "dew point ≤ dry bulb" means for this code. `calcDewPoint` inverts the MAGNUS formula
+`es(T) = 0.6108·exp(17.27 T / (T + 237.3))` on an actual vapour pressure computed with the GOFF-GRATCH formula
+(`calcVaporPressure(T)·RH/100`). Hence (for RH > 0, T > −237.3 and a positive Magnus denominator) the dew point is at most the
+dry bulb EXACTLY when the Goff-Gratch actual vapour pressure does not exceed the Magnus saturation pressure at the dry bulb.
+The two formulas differ by up to ≈ 10⁻³ relative, so at RH = 100 % this fails where Goff-Gratch > Magnus (on the real code: from
+T ≈ 31 °C upward, dew − dry ≤ 0.006 °C); `wetbulb_between` therefore uses the order-free `min/max` form and nothing about
+dew ≤ dry is assumed anywhere. -/
+theorem dewPoint_le_dryBulb_iff (t rh : ℝ) (hrh : 0 < rh) (ht : -237.3 < t)
+    (hden : Real.log (vaporPressure t * rh / 100 / 0.6108) < 17.27) :
+    dewPoint t rh ≤ t ↔ vaporPressure t * rh / 100 ≤ 0.6108 * Real.exp (17.27 * t / (t + 237.3)) := by
+  rw [dewPoint_eq t rh hrh]
+  have hv := vp_pos t
+  have hea : 0 < vaporPressure t * rh / 100 / 0.6108 := by positivity
+  have hT : 0 < t + 237.3 := by linarith
+  rw [← div_le_iff₀' (by norm_num : (0:ℝ) < 0.6108), ← Real.log_le_iff_le_exp hea]
+  generalize Real.log (vaporPressure t * rh / 100 / 0.6108) = F at hden ⊢
+  rw [div_le_iff₀ (by linarith), le_div_iff₀ hT]
+  constructor <;> intro h <;> nlinarith
+
+/-- **dewPoint_le_dryBulb_of_magnus.** Sufficient condition with no side hypothesis: wherever the Goff-Gratch saturation pressure
+is at most the Magnus one, the dew point is at most the dry bulb for every humidity 0 < RH ≤ 100. -/
+theorem dewPoint_le_dryBulb_of_magnus (t rh : ℝ) (hrh : 0 < rh) (hrh' : rh ≤ 100) (ht : -237.3 < t)
+    (hgm : vaporPressure t ≤ 0.6108 * Real.exp (17.27 * t / (t + 237.3))) : dewPoint t rh ≤ t := by
+  have hv := vp_pos t
+  have hT : 0 < t + 237.3 := by linarith
+  have hle : vaporPressure t * rh / 100 ≤ 0.6108 * Real.exp (17.27 * t / (t + 237.3)) := by
+    have : vaporPressure t * rh / 100 ≤ vaporPressure t := by
+      rw [div_le_iff₀ (by norm_num)]; nlinarith
+    linarith
+  have hea : 0 < vaporPressure t * rh / 100 / 0.6108 := by positivity
+  have hden : Real.log (vaporPressure t * rh / 100 / 0.6108) < 17.27 := by
+    have h1 : Real.log (vaporPressure t * rh / 100 / 0.6108) ≤ 17.27 * t / (t + 237.3) := by
+      rw [Real.log_le_iff_le_exp hea, div_le_iff₀' (by norm_num : (0:ℝ) < 0.6108)]
+      exact hle
+    have h2 : 17.27 * t / (t + 237.3) < 17.27 := by
+      rw [div_lt_iff₀ hT]; nlinarith
+    linarith
+  exact (dewPoint_le_dryBulb_iff t rh hrh ht hden).mpr hle
+
+/-- **dewPoint_le_dryBulb_at_zero.** An instance where the sufficient condition is verified exactly: at 0 °C (ice branch:
+0.61071617… kPa ≤ 0.6108 kPa) the dew point is at most the dry bulb for every humidity 0 < RH ≤ 100. -/
+theorem dewPoint_le_dryBulb_at_zero (rh : ℝ) (hrh : 0 < rh) (hrh' : rh ≤ 100) : dewPoint 0 rh ≤ 0 := by
+  apply dewPoint_le_dryBulb_of_magnus 0 rh hrh hrh' (by norm_num)
+  have hvp : vaporPressure (0:ℝ) = 101.325 * 0.0060273 := by
+    rw [vp_zero]
+    have : expIce 1 = Real.logb 10 0.0060273 := by
+      unfold expIce; rw [Real.logb_one]; norm_num
+    rw [this, Real.rpow_logb (by norm_num) (by norm_num) (by norm_num)]
+  rw [hvp]
+  norm_num
+
+/-- **dewPoint_exceeds_dryBulb_example.** "dew point ≤ dry bulb for 0 < RH ≤ 100" is FALSE for this code (model and real code
+agree: `ClimateVariables` at dryBulb = 40, humidity = 100 returns dewPoint = 40.00548757635144, deltaT = −0.0054875…): at 40 °C
+the Goff-Gratch saturation pressure 7.37777 kPa exceeds the Magnus one 7.37561 kPa (`magnus_lt_goffGratch_40`, verified
+numerics), so saturated air gets a dew point strictly above the dry bulb. Recorded as a property of the chosen formulas, not
+raised as a defect (DESIGN §6 C20); it is why `wetbulb_between` is stated with `min`/`max`. -/
+theorem dewPoint_exceeds_dryBulb_example : (40:ℝ) < dewPoint 40 100 := by
+  have hgm := magnus_lt_goffGratch_40
+  have hv100 : vaporPressure (100:ℝ) = 101.325 := by
+    rw [vp_water 100 (by norm_num)]
+    have z : (373.16:ℝ) / (100 + 273.16) = 1 := by norm_num
+    have e : expWater 1 = 0 := by unfold expWater; rw [Real.logb_one]; norm_num
+    rw [z, e]; norm_num
+  have hv40 : vaporPressure (40:ℝ) < 101.325 := by
+    rw [← hv100]; exact vp_strictMono_water 40 100 (by norm_num) (by norm_num) (le_refl _)
+  have hpos := vp_pos (40:ℝ)
+  have hden : Real.log (vaporPressure (40:ℝ) * 100 / 100 / 0.6108) < 17.27 := by
+    have hx : 0 < vaporPressure (40:ℝ) * 100 / 100 / 0.6108 := by positivity
+    rw [Real.log_lt_iff_lt_exp hx]
+    have h17 : (2:ℝ) ^ 17 ≤ Real.exp 17.27 := by
+      have h2 : (2:ℝ) ≤ Real.exp 1 := by have := Real.exp_one_gt_d9; linarith
+      calc (2:ℝ) ^ 17 ≤ Real.exp 1 ^ 17 := pow_le_pow_left₀ (by norm_num) h2 17
+        _ = Real.exp 17 := by rw [← Real.exp_nat_mul]; norm_num
+        _ ≤ Real.exp 17.27 := Real.exp_le_exp.mpr (by norm_num)
+    have : vaporPressure (40:ℝ) * 100 / 100 / 0.6108 < 2 ^ 17 := by
+      rw [div_lt_iff₀ (by norm_num)]; linarith
+    linarith
+  by_contra hcon
+  have := (dewPoint_le_dryBulb_iff 40 100 (by norm_num) (by norm_num) hden).mp (not_lt.mp hcon)
+  have e : vaporPressure (40:ℝ) * 100 / 100 = vaporPressure 40 := by ring
+  rw [e] at this
+  linarith
+
 /-! ### non-vacuity -/
 
 /-- the bisection does move: with `f = id` and level 3 in the bracket [0, 8] two steps give 2 -/
@@ -165,6 +406,45 @@ example : bisect (fun x : ℝ => x) 3 2 0 8 = 2 := by
 example : 0 < vaporPressure (20 : ℝ) := vp_pos 20
 example : vaporPressure (-40 : ℝ) < vaporPressure (0 : ℝ) := vp_strictMono_ice (-40) 0 (by norm_num) (by norm_num) (le_refl _)
 example : vaporPressure (1 : ℝ) < vaporPressure (55 : ℝ) := vp_strictMono_water 1 55 (by norm_num) (by norm_num) (by norm_num)
+
+
+/-- across the freezing point -/
+example : vaporPressure (-5 : ℝ) < vaporPressure (5 : ℝ) := vp_strictMono (-5) 5 (by norm_num) (by norm_num) (by norm_num)
+example : vaporPressure (0 : ℝ) < vaporPressure (0.001 : ℝ) :=
+  vp_strictMono_across 0 0.001 (by norm_num) (le_refl _) (by norm_num) (by norm_num)
+
+/-- the hypotheses of `bisect_converges` are satisfiable and the conclusion is informative: `f = id`, level 3 in [0, 8] -/
+example : ∃ c ∈ uIcc (0:ℝ) (0 + 8), (fun x : ℝ => x) c = 3 ∧
+    (|bisect (fun x : ℝ => x) 3 40 0 8 - c| < 0.0001 ∨ |bisect (fun x : ℝ => x) 3 40 0 8 - c| ≤ |(8:ℝ)| / 2 ^ 40) :=
+  bisect_converges (fun x : ℝ => x) 3 40 0 8 continuousOn_id (by norm_num) (by norm_num)
+
+/-- the hypotheses of `wetbulb_converges_water` are satisfiable with the real searched function: dew point 10 °C, dry bulb 20 °C,
+standard pressure 101.325 kPa (= vp(100 °C) exactly), enthalpy level = the saturated enthalpy at the dry bulb (RH = 100 %) -/
+example : ∃ c ∈ uIcc (10:ℝ) 20, satEnthalpy 101.325 c = satEnthalpy 101.325 20 ∧
+    (|wetBulb 20 10 (satEnthalpy 101.325 20) 101.325 - c| < 0.0001 ∨
+     |wetBulb 20 10 (satEnthalpy 101.325 20) 101.325 - c| ≤ |(20:ℝ) - 10| / 2 ^ 40) := by
+  have hvp100 : vaporPressure (100:ℝ) = 101.325 := by
+    rw [vp_water 100 (by norm_num)]
+    have z : (373.16:ℝ) / (100 + 273.16) = 1 := by norm_num
+    rw [z]
+    have : expWater 1 = 0 := by
+      unfold expWater; rw [Real.logb_one]; norm_num
+    rw [this]; norm_num
+  have hlt : ∀ x : ℝ, 0 < x → x ≤ 20 → vaporPressure x < 101.325 := by
+    intro x h0 h1
+    rw [← hvp100]; exact vp_strictMono_water x 100 h0 (by linarith) (le_refl _)
+  apply wetbulb_converges_water 20 10 _ 101.325 (by norm_num) (by norm_num)
+  · intro x hx
+    rw [mem_uIcc] at hx
+    have : vaporPressure x < 101.325 := by
+      rcases hx with hx | hx
+      · exact hlt x (by linarith [hx.1]) hx.2
+      · exact hlt x (by linarith [hx.1]) (by linarith [hx.2])
+    linarith
+  · exact satEnthalpy_strictMono_water 101.325 10 20 (by norm_num) (by norm_num) (by norm_num) (hlt 20 (by norm_num) (le_refl _))
+  · exact le_refl _
+
+example : dewPoint (0:ℝ) 80 ≤ 0 := dewPoint_le_dryBulb_at_zero 80 (by norm_num) (by norm_num)
 
 /-- at 0 °C the ice branch gives exactly 101.325 × 0.0060273 kPa, so at 50 % and 100 % humidity `ea/0.6108 < 1` and the
 hypothesis of `dewpoint_mono_humidity` holds -/
